@@ -312,7 +312,7 @@ func main() {
 		keys = append(keys, k)
 	}
 	sort.Strings(keys)
-	exit := 0
+	exitCode := 0
 	violations := 0
 	var reported []map[string]any
 	for _, k := range keys {
@@ -326,7 +326,7 @@ func main() {
 				continue
 			}
 			violations++
-			exit = 1
+			exitCode = 1
 			fmt.Printf("VIOLATION property=%s replay=%s\n", prop, path)
 			fmt.Printf("  rule=%s class=%s\n  %s\n", f.Violation.Rule, f.Violation.Class, firstLines(f.Violation.Detail, 12))
 			reported = append(reported, map[string]any{"violation": f.Violation, "replay": path})
@@ -367,18 +367,18 @@ func main() {
 	}
 	fmt.Printf("%s %s: %d runs (%d non-trivial, %d distinct), %d steps, %.0f simulated s, %.1f s wall, %d violation(s)\n",
 		prop, *tier, agg.Runs, agg.NonTrivial, distinct, agg.Steps, float64(agg.SimNanos)/1e9, wall, violations)
-	if len(troubles) > 0 && exit == 0 {
+	if len(troubles) > 0 && exitCode == 0 {
 		for _, t := range troubles {
 			fmt.Println("TROUBLE:", firstLines(t, 60))
 		}
 		exit(2)
 	}
 	if agg.Runs == 0 || distinct < 2 {
-		if exit == 0 {
+		if exitCode == 0 {
 			trouble("exploration covered too little: %d runs, %d distinct non-trivial", agg.Runs, distinct)
 		}
 	}
-	exit(exit)
+	exit(exitCode)
 }
 
 func crashClass(log string) string {
